@@ -209,6 +209,24 @@ fn noop_waker() -> Waker {
     unsafe { Waker::from_raw(RawWaker::new(std::ptr::null(), &VTABLE)) }
 }
 
+/// An enter_on_poll adapter for the poll that names its span `g`.  Every other one has already been polled once -
+/// by a thread that has no local parent, with nothing for the inner future to do (it returns Pending): an adapter's
+/// polls are independent of each other, so the poll that counts must behave as a first poll does.
+fn eop_adapter(slot: &Slot, g: i64) -> Pin<Box<fastrace::future::EnterOnPoll<SFutRef>>> {
+    let mut ad = Box::pin(SFutRef(slot.clone()).enter_on_poll(crate::ops::sname(g)));
+    if g % 2 == 0 && slot.0.lock().unwrap().is_none() {
+        ad = std::thread::spawn(move || {
+            let waker = noop_waker();
+            let mut cx = Context::from_waker(&waker);
+            let _ = ad.as_mut().poll(&mut cx);
+            ad
+        })
+        .join()
+        .unwrap();
+    }
+    ad
+}
+
 enum Kind {
     Fut(Pin<Box<fastrace::future::InSpan<SFut>>>),
     Str(Pin<Box<fastrace_futures::InSpan<SStream>>>),
@@ -255,7 +273,10 @@ impl Adapter {
                     s.as_mut().poll_close(&mut cx).is_ready()
                 } else {
                     // ready, send, flush (pending), flush again, close attempt (pending), ...
-                    match self.calls % 5 {
+                    // every other sink is closed earlier: ready, send, flush, close attempt (pending) - so that within
+                    // five calls a close that is still pending is followed by the close that completes
+                    let early_close = rc.variant(f + 11, 2) == 1;
+                    match if early_close && self.calls % 5 == 4 { 0 } else if early_close && self.calls % 5 == 0 { 4 } else { self.calls % 5 } {
                         1 => {
                             let _ = s.as_mut().poll_ready(&mut cx);
                         }
@@ -277,7 +298,7 @@ impl Adapter {
                 // model's), built ahead when the name was known
                 let mut ad = match next.take() {
                     Some((name, ad)) if name == g => ad,
-                    _ => Box::pin(SFutRef(self.slot.clone()).enter_on_poll(crate::ops::sname(g))),
+                    _ => eop_adapter(&self.slot, g),
                 };
                 ad.as_mut().poll(&mut cx).is_ready()
             }
@@ -290,7 +311,7 @@ impl Adapter {
     /// enter_on_poll: builds the adapter of the poll that will name its span `g`, now.
     pub fn prepare(&mut self, g: i64) {
         if let Kind::Eop(_, next) = &mut self.kind {
-            *next = Some((g, Box::pin(SFutRef(self.slot.clone()).enter_on_poll(crate::ops::sname(g)))));
+            *next = Some((g, eop_adapter(&self.slot, g)));
         }
     }
 }
